@@ -592,6 +592,30 @@ where
     )
 }
 
+/// Returns false if the path leads to another file than the one that was scanned.
+/// A path that cannot be examined is dealt with when it is read.
+fn is_still_same_file(file: &HashedFileInfo) -> bool {
+    match FileId::new(&file.file_info.path) {
+        Ok(id) => id == file.file_info.id,
+        Err(_) => true,
+    }
+}
+
+/// Returns false if the group contains several paths that were the same file when they
+/// were scanned, and one of them leads to another file now.
+fn is_still_one_file(group: &FileGroup<FileInfo>) -> bool {
+    group.files.len() <= 1
+        || group.unique_count() > 1
+        || group.files.iter().all(|f| match FileId::new(&f.path) {
+            Ok(id) => id == f.id,
+            Err(_) => true,
+        })
+}
+
+fn accept_group(_: &FileGroup<FileInfo>) -> bool {
+    true
+}
+
 /// Does what [`rehash`] does. If `one_hash_per_file` is false, the paths that are the same file
 /// (hard links) are hashed separately. That is needed when the hash depends on the path.
 fn rehash_paths<'a, F1, F2, H>(
@@ -689,12 +713,12 @@ where
                         // A path that has been pointed to another file since then (replaced
                         // by renaming a new file over it) must not get the hash of that file,
                         // nor lend its own hash to the others.
+                        // Such a path is hashed on its own, as the file it is now.
+                        let mut replaced = Vec::new();
                         if fg.len() > 1 {
-                            fg.retain(|f| match FileId::new(&f.file_info.path) {
-                                Ok(id) => id == f.file_info.id,
-                                // a path that cannot be examined is dealt with when it is read
-                                Err(_) => true,
-                            });
+                            let (same, other) = fg.into_iter().partition(is_still_same_file);
+                            fg = same;
+                            replaced = other;
                         }
                         // All the files in this group are the same file, so only one of them
                         // is hashed. If it cannot be read, e.g. because that path has just been
@@ -719,6 +743,16 @@ where
                                 tx.send(f).unwrap();
                             }
                         }
+                        for mut f in replaced {
+                            if let Ok(id) = FileId::new(&f.file_info.path) {
+                                f.file_info.id = id;
+                            }
+                            let old_hash = f.file_hash.clone();
+                            if let Some(hash) = hash_fn((&mut f.file_info, old_hash)) {
+                                f.file_hash = hash;
+                                tx.send(f).unwrap();
+                            }
+                        }
                         // This forces moving the guard into this task and be released when
                         // the task is done
                         drop(guard);
@@ -738,6 +772,23 @@ where
     })
     .unwrap();
 
+    // A group that is passed on untouched may consist of the paths of one file. If one of them
+    // has been pointed to another file since the scan, the group has to be examined after all.
+    let (groups_to_pass, groups_to_examine): (Vec<_>, Vec<_>) =
+        groups_to_pass.into_iter().partition(is_still_one_file);
+    let examined_groups = match groups_to_examine.is_empty() {
+        true => vec![],
+        false => rehash_paths(
+            groups_to_examine,
+            accept_group,
+            accept_group,
+            devices,
+            access_type,
+            one_hash_per_file,
+            hash_fn,
+        ),
+    };
+
     // Convert the hashmap into vector, leaving only large-enough groups:
     hash_map
         .into_iter()
@@ -747,6 +798,7 @@ where
             files: files.to_vec(),
         })
         .chain(groups_to_pass)
+        .chain(examined_groups)
         .filter(group_post_filter)
         .collect()
 }
